@@ -430,53 +430,60 @@ def aggregate_replay(keys, estimator="nonparametric", alpha=0.9):
     """REAL get_aggregate_predictions (+ nonparametric aggregate intervals) on a tiny hand-built election that has
     every kind of unit (reporting, outstanding with partial counts, unexpected with / without a county, non-modelled,
     groups that exist only through third-frame or only through outstanding units); identities of C01/C02/C03/C11
-    are recomputed with plain python loops from the statement."""
+    are recomputed with plain python loops from the statement.  Two labellings are run: letters, and all-digit labels
+    of different lengths (numeric order != string order), and nothing is assumed about the ORDER of the estimates
+    table: row i of the interval series must belong to the group named on row i of the estimates table."""
     from elexmodel.models.ConformalElectionModel import PredictionIntervals
     from elexmodel.models.NonparametricElectionModel import NonparametricElectionModel
 
     E = "turnout"
     lo_s, up_s = f"lower_{alpha}_{E}", f"upper_{alpha}_{E}"
-
-    def unit(i, st, cty, cls, dist, res, rep, pred=None, lo=None, up=None, cat="expected"):
-        return {"postal_code": st, "county_fips": cty, "county_classification": cls, "district": dist, "geographic_unit_fips": f"u{i}", f"results_{E}": res, "reporting": rep, f"pred_{E}": res if pred is None else pred, lo_s: res if lo is None else lo, up_s: res if up is None else up, "unit_category": cat}
-
-    rep = pd.DataFrame([unit(1, "AA", "c1", "urban", "d1", 100, 1), unit(2, "AA", "c1", "rural", "d1", 50, 1), unit(3, "BB", "c3", "urban", "d2", 70, 1)])
-    non = pd.DataFrame([unit(4, "AA", "c1", "urban", "d1", 10, 0, 40, 35, 60), unit(5, "AA", "c2", "rural", "d2", 0, 0, 90, 80, 120), unit(6, "BB", "c4", "rural", "d3", 5, 0, 30, 20, 44)])
-    third = pd.DataFrame([unit(7, "AA", "c1", np.nan, "d1", 7, 0, cat="unexpected"), unit(8, "BB", "c9", np.nan, "d9", 3, 0, cat="unexpected"), unit(9, "BB", "c3", "urban", "d2", 11, 0, cat="non-modeled: blocklisted")])
-    m = NonparametricElectionModel({})
     out = {"exc": None, "problems": []}
-    try:
-        est = m.get_aggregate_predictions(rep, non, third, list(keys), E)
-        pi = m.get_aggregate_prediction_intervals(rep, non, third, list(keys), alpha, PredictionIntervals(None, None, None), E)
-    except Exception as e:  # noqa
-        out["exc"] = f"{type(e).__name__}: {e}"
-        return out
-    cls = "county_classification" in keys
-    groups = {}
-    for fr, kind in ((rep, "R"), (non, "N"), (third, "T")):
-        for _, r in fr.iterrows():
-            if kind == "T" and cls:
-                continue
-            k = tuple(r[c] for c in keys)
-            if any(isinstance(x, float) and x != x for x in k):
-                continue
-            g = groups.setdefault(k, {"res": 0, "pred": 0, "lo": 0, "up": 0, "rep": 0})
-            g["res"] += r[f"results_{E}"]
-            g["pred"] += r[f"pred_{E}"]
-            g["lo"] += r[lo_s]
-            g["up"] += r[up_s]
-            g["rep"] += r["reporting"]
-    want = sorted(groups)
-    got = [tuple(x) for x in est[list(keys)].values.tolist()]
-    if got != want:
-        out["problems"].append({"rows": got, "expected_rows": want})
-    else:
-        for i, k in enumerate(want):
-            g = groups[k]
-            obs = (est[f"results_{E}"][i], est[f"pred_{E}"][i], est["reporting"][i], pi.lower[i], pi.upper[i])
-            exp = (g["res"], g["pred"], g["rep"], g["lo"], g["up"])
-            if any(abs(a - b) > 1e-9 for a, b in zip(obs, exp)):
-                out["problems"].append({"group": k, "observed(results,pred,reporting,lower,upper)": [float(x) for x in obs], "expected": [float(x) for x in exp]})
+    labellings = [
+        {"c1": "c1", "c2": "c2", "c3": "c3", "c4": "c4", "c9": "c9", "d1": "d1", "d2": "d2", "d3": "d3", "d9": "d9"},
+        {"c1": "10", "c2": "9", "c3": "2", "c4": "100", "c9": "31", "d1": "12", "d2": "3", "d3": "1", "d9": "20"},
+    ]
+    for lab in labellings:
+        def unit(i, st, cty, cls, dist, res, rep, pred=None, lo=None, up=None, cat="expected"):
+            return {"postal_code": st, "county_fips": lab[cty], "county_classification": cls, "district": lab[dist], "geographic_unit_fips": f"u{i}", f"results_{E}": res, "reporting": rep, f"pred_{E}": res if pred is None else pred, lo_s: res if lo is None else lo, up_s: res if up is None else up, "unit_category": cat}
+
+        rep = pd.DataFrame([unit(1, "AA", "c1", "urban", "d1", 100, 1), unit(2, "AA", "c1", "rural", "d1", 50, 1), unit(3, "BB", "c3", "urban", "d2", 70, 1)])
+        non = pd.DataFrame([unit(4, "AA", "c1", "urban", "d1", 10, 0, 40, 35, 60), unit(5, "AA", "c2", "rural", "d2", 0, 0, 90, 80, 120), unit(6, "BB", "c4", "rural", "d3", 5, 0, 30, 20, 44)])
+        third = pd.DataFrame([unit(7, "AA", "c1", np.nan, "d1", 7, 0, cat="unexpected"), unit(8, "BB", "c9", np.nan, "d9", 3, 0, cat="unexpected"), unit(9, "BB", "c3", "urban", "d2", 11, 0, cat="non-modeled: blocklisted")])
+        m = NonparametricElectionModel({})
+        try:
+            est = m.get_aggregate_predictions(rep, non, third, list(keys), E)
+            pi = m.get_aggregate_prediction_intervals(rep, non, third, list(keys), alpha, PredictionIntervals(None, None, None), E)
+        except Exception as e:  # noqa
+            out["exc"] = f"{type(e).__name__}: {e}"
+            return out
+        cls = "county_classification" in keys
+        groups = {}
+        for fr, kind in ((rep, "R"), (non, "N"), (third, "T")):
+            for _, r in fr.iterrows():
+                if kind == "T" and cls:
+                    continue
+                k = tuple(r[c] for c in keys)
+                if any(isinstance(x, float) and x != x for x in k):
+                    continue
+                g = groups.setdefault(k, {"res": 0, "pred": 0, "lo": 0, "up": 0, "rep": 0})
+                g["res"] += r[f"results_{E}"]
+                g["pred"] += r[f"pred_{E}"]
+                g["lo"] += r[lo_s]
+                g["up"] += r[up_s]
+                g["rep"] += r["reporting"]
+        got = [tuple(x) for x in est[list(keys)].values.tolist()]
+        lower, upper = np.asarray(pi.lower, dtype=float).ravel(), np.asarray(pi.upper, dtype=float).ravel()
+        if sorted(got) != sorted(groups) or len(lower) != len(got) or len(upper) != len(got):
+            out["problems"].append({"rows": got, "expected_groups": sorted(groups), "interval_rows": [int(len(lower)), int(len(upper))]})
+        else:
+            for i, k in enumerate(got):
+                g = groups[k]
+                obs = (est[f"results_{E}"].iloc[i], est[f"pred_{E}"].iloc[i], est["reporting"].iloc[i], lower[i], upper[i])
+                exp = (g["res"], g["pred"], g["rep"], g["lo"], g["up"])
+                if any(abs(a - b) > 1e-9 for a, b in zip(obs, exp)):
+                    out["problems"].append({"group": k, "observed(results,pred,reporting,lower,upper)": [float(x) for x in obs], "expected": [float(x) for x in exp]})
+    out["problems"] = out["problems"][:4]
     out["ok"] = not out["problems"]
     return out
 
@@ -733,7 +740,8 @@ def gaussian_aggregate_replay(keys, alpha=0.9):
     out = {"exc": None, "ok": True, "mismatches": []}
     for li, layout in enumerate(layouts):
         groups = list(layout)
-        for nonrep_groups in (groups, groups[:1] + [("AA", "only_outstanding")]):
+        # (third alternative: NOTHING outstanding, with an unexpected unit in a group of its own)
+        for nonrep_groups in (groups, groups[:1] + [("AA", "only_outstanding")], []):
             for big in (False, True):
                 conf, rep, non, unx = gaussian_scene(layout, nonrep_groups, big, rng, key=key)
                 m = GaussianElectionModel({"save_conformalization": False, "election_id": "e", "office": "S", "geographic_unit_type": "county"})
@@ -1527,6 +1535,211 @@ def repeat_bootstrap_run_replay():
                     out["differences"].append({"run": i + 1, "table": tab, "first_differing_column": col})
         out["differences"] = out["differences"][:4]
         out["ok"] = not out["differences"]
+    except Exception as e:  # noqa
+        out["exc"] = f"{type(e).__name__}: {e}"
+        out["ok"] = False
+    return out
+
+
+def format_called_contests_replay():
+    """REAL BootstrapElectionModel._format_called_contests(lhs, rhs, contests, 1, 0, -1) on every pair of call lists (length
+    <= 2, names from three contests and one unknown name): it must raise iff some name is called for both sides or is not a
+    contest, and otherwise return 1 / 0 / -1 per contest"""
+    import itertools
+
+    from elexmodel.models.BootstrapElectionModel import BootstrapElectionModel
+
+    m = BootstrapElectionModel({"features": ["baseline_normalized_margin"], "B": 10})
+    contests = ["a", "b", "c"]
+    names = contests + ["zz"]
+    lists = [[]] + [[x] for x in names] + [list(p) for p in itertools.permutations(names, 2)]
+    out = {"exc": None, "failures": [], "cases": 0}
+    for lhs in lists:
+        for rhs in lists:
+            out["cases"] += 1
+            should_raise = bool(set(lhs) & set(rhs)) or bool((set(lhs) | set(rhs)) - set(contests))
+            try:
+                r = m._format_called_contests(list(lhs), list(rhs), list(contests), 1, 0, -1)
+                raised = None
+            except Exception as e:  # noqa
+                raised = type(e).__name__
+            if should_raise != (raised is not None) or (raised not in (None, "BootstrapElectionModelException")):
+                out["failures"].append({"lhs": lhs, "rhs": rhs, "contests": contests, "should_raise": should_raise, "raised": raised})
+            elif raised is None:
+                want = [1 if c in lhs else 0 if c in rhs else -1 for c in contests]
+                if [int(v) for v in np.asarray(r).ravel()] != want:
+                    out["failures"].append({"lhs": lhs, "rhs": rhs, "got": [int(v) for v in np.asarray(r).ravel()], "want": want})
+    out["failures"] = out["failures"][:4]
+    out["ok"] = not out["failures"]
+    return out
+
+
+def national_summary_dict_size_replay(correlated=False, hard=True):
+    """REAL get_national_summary_estimates with weight dictionaries that are too small, right and too large (for 1 and 3
+    contests): a dictionary of the wrong size must be rejected with the dedicated error, a right one accepted"""
+    from elexmodel.models.BootstrapElectionModel import BootstrapElectionModel
+
+    B = 20
+    out = {"exc": None, "failures": []}
+    rng = np.random.default_rng(3)
+    allnames = ["a", "b", "c", "d", "e"]
+    for n in (1, 3):
+        for size in (n - 1, n, n + 1, n + 2):
+            m = BootstrapElectionModel({"features": ["baseline_normalized_margin"], "B": B, "agg_model_hard_threshold": hard, "national_summary_correlation": correlated})
+            m.aggregate_pred_margin = np.array([[0.1 * (i + 1)] for i in range(n)])
+            noise = rng.normal(0, 0.01, size=(n, B))
+            m.divided_error_B_1, m.divided_error_B_2 = noise, noise * 0.5
+            m.called_contests = np.full((n, 1), -1)
+            m.stop_model_call = np.full((n, 1), False)
+            d = {k: 5 + i for i, k in enumerate(allnames[:size])}
+            try:
+                m.get_national_summary_estimates(d, 100, 0.9)
+                raised = None
+            except Exception as e:  # noqa
+                raised = type(e).__name__
+            want = None if size == n else "BootstrapElectionModelException"
+            if raised != want:
+                out["failures"].append({"contests": n, "dictionary_size": size, "raised": raised, "expected": want})
+    out["failures"] = out["failures"][:4]
+    out["ok"] = not out["failures"]
+    return out
+
+
+def bootstrap_interval_nesting_replay():
+    """REAL BootstrapElectionModel.get_aggregate_prediction_intervals (a finer-than-contest aggregate, bootstrap draws set
+    by hand, many of them one-sided or within 0.001 of the prediction) at pairs of levels a < b: every group's interval
+    must straddle its prediction and the level-b interval must contain the level-a interval"""
+    from elexmodel.models.BootstrapElectionModel import BootstrapElectionModel
+
+    out = {"exc": None, "failures": [], "cases": 0}
+    try:
+        rng = np.random.default_rng(5)
+        B, G = 10, 3
+        rep = pd.DataFrame({"postal_code": "AA", "county_fips": [f"c{g}" for g in range(G)], "geographic_unit_fips": [f"r{g}" for g in range(G)], "baseline_weights": 1000.0, "results_normalized_margin": [0.1, -0.2, 0.05], "turnout_factor": 1.0, "results_margin": [100.0, -200.0, 50.0], "reporting": 1})
+        non = pd.DataFrame({"postal_code": "AA", "county_fips": [f"c{g}" for g in range(G)], "geographic_unit_fips": [f"n{g}" for g in range(G)], "baseline_weights": 1000.0, "results_weights": 10.0, "results_margin": 1.0, "reporting": 0})
+        unx = rep.iloc[:0].assign(results_weights=[])
+        for s in range(120):
+            m = BootstrapElectionModel({"features": ["baseline_normalized_margin"], "B": B})
+            m.B = B
+            m.ran_bootstrap = True
+            ztot = 2000.0
+            scale = rng.choice([0.0003, 0.002, 0.02], size=(G, 1))
+            shift = rng.choice([-1.0, 0.0, 1.0], size=(G, 1)) * scale
+            e = rng.normal(0, 1, size=(G, B)) * scale + shift
+            m.errors_B_1 = e * ztot  # sum w*y*z of the draw
+            m.errors_B_2 = np.zeros((G, B))
+            m.errors_B_3 = np.full((G, B), 1000.0)
+            m.errors_B_4 = np.full((G, B), 1000.0)
+            m.weighted_z_test_pred = np.full((G, 1), 1000.0)
+            m.weighted_yz_test_pred = np.array([[30.0], [-60.0], [10.0]])
+            a, b = sorted(rng.choice([0.5, 0.6, 0.7, 0.8, 0.9, 0.95], size=2, replace=False))
+            pa = m.get_aggregate_prediction_intervals(rep, non, unx, ["postal_code", "county_fips"], float(a), None, "margin")
+            pb = m.get_aggregate_prediction_intervals(rep, non, unx, ["postal_code", "county_fips"], float(b), None, "margin")
+            pred = (np.array([100.0, -200.0, 50.0]) + np.array([30.0, -60.0, 10.0])) / 2000.0
+            la, ua, lb, ub = (np.asarray(x, dtype=float).ravel() for x in (pa.lower, pa.upper, pb.lower, pb.upper))
+            out["cases"] += 1
+            for g in range(G):
+                if not (la[g] < pred[g] < ua[g] and lb[g] < pred[g] < ub[g] and lb[g] <= la[g] + 1e-12 and ua[g] <= ub[g] + 1e-12):
+                    out["failures"].append({"scenario": s, "group": g, "levels": [float(a), float(b)], "pred": float(pred[g]), "narrow": [float(la[g]), float(ua[g])], "wide": [float(lb[g]), float(ub[g])]})
+        out["failures"] = out["failures"][:4]
+        out["ok"] = not out["failures"]
+    except Exception as e:  # noqa
+        import traceback
+
+        out["exc"] = f"{type(e).__name__}: {e}"
+        out["trace"] = traceback.format_exc()[-600:]
+        out["ok"] = False
+    return out
+
+
+def bootstrap_counted_margin_replay(keys=("postal_code", "county_classification")):
+    """REAL BootstrapElectionModel.get_aggregate_predictions, third frame holding a non-modelled unit WITH a county /
+    classification / district and an unexpected unit without a classification: the counted-margin column of every group
+    must be the live margin of its attributable units (classification tables: modelled units only) divided by the predicted
+    two-party turnout of the SAME units, and pred_turnout that denominator"""
+    from elexmodel.models.BootstrapElectionModel import BootstrapElectionModel
+
+    keys = list(keys)
+    m = BootstrapElectionModel({"features": ["baseline_normalized_margin"], "B": 10})
+    common = lambda n: {"postal_code": ["AA"] * n, "district": ["d1"] * n}  # noqa: E731
+    rep = pd.DataFrame({**common(2), "county_fips": ["c1", "c2"], "county_classification": ["urban", "rural"], "geographic_unit_fips": ["a1", "a2"], "baseline_weights": [1000.0, 800.0], "results_normalized_margin": [0.1, -0.2], "turnout_factor": [1.1, 0.9], "results_margin": [110.0, -144.0], "pred_margin": [110.0, -144.0], "results_weights": [1100.0, 720.0], "reporting": 1})
+    non = pd.DataFrame({**common(2), "county_fips": ["c1", "c2"], "county_classification": ["urban", "rural"], "geographic_unit_fips": ["n1", "n2"], "baseline_weights": [400.0, 500.0], "results_weights": [140.0, 50.0], "results_margin": [40.0, 5.0], "pred_margin": [30.0, -60.0], "reporting": 0})
+    unx = pd.DataFrame({**common(2), "county_fips": ["c1", "c2"], "county_classification": ["urban", np.nan], "geographic_unit_fips": ["x1", "x2"], "results_weights": [70.0, 30.0], "results_margin": [10.0, -6.0], "pred_margin": [10.0, -6.0], "reporting": [0, 0]})
+    for f in (rep, non, unx):
+        for c in ("baseline_dem", "baseline_gop", "baseline_turnout"):
+            f[c] = 1.0
+    m.weighted_z_test_pred = np.array([[300.0], [450.0]])
+    m.weighted_yz_test_pred = np.array([[30.0], [-60.0]])
+    m.ran_bootstrap = True
+    out = {"exc": None, "failures": []}
+    try:
+        est = m.get_aggregate_predictions(rep, non, unx, keys, "margin", lhs_called_contests=[], rhs_called_contests=[])
+        classification = "county_classification" in keys
+        zrep = dict(zip(rep.geographic_unit_fips, rep.baseline_weights * rep.turnout_factor))
+        znon = dict(zip(non.geographic_unit_fips, [300.0, 450.0]))
+        for _, row in est.iterrows():
+            def inside(f):
+                msk = np.ones(len(f), dtype=bool)
+                for k in keys:
+                    msk &= (f[k] == row[k]).to_numpy()
+                return f[msk]
+
+            r, n_, x = inside(rep), inside(non), (unx.iloc[:0] if classification else inside(unx))
+            den = sum(zrep[u] for u in r.geographic_unit_fips) + sum(znon[u] for u in n_.geographic_unit_fips) + float(x.results_weights.sum())
+            num = float(r.results_margin.sum() + n_.results_margin.sum() + x.results_margin.sum())
+            want = 0.0 if den == 0 else num / den
+            if abs(float(row["pred_turnout"]) - den) > 1e-6 or abs(float(row["results_margin"]) - want) > 1e-9:
+                out["failures"].append({"group": [str(row[k]) for k in keys], "pred_turnout": float(row["pred_turnout"]), "turnout_of_attributable_units": den, "results_margin": float(row["results_margin"]), "want": want})
+        out["groups"] = int(len(est))
+        out["ok"] = not out["failures"] and len(est) > 0
+    except Exception as e:  # noqa
+        out["exc"] = f"{type(e).__name__}: {e}"
+        out["ok"] = False
+    return out
+
+
+def derived_quantities_replay(unit, policy, estimands, prepared=False):
+    """REAL Estimandizer + CombinedDataHandler.__init__ on a 3-unit election whose first unit has the solver's values; with
+    prepared=True the feed first goes through MockLiveDataHandler.load_data's steps (real add_estimand_results, only the
+    returned columns kept), as in a historical / command-line run.  The derived columns of that unit on the joined table
+    must follow their definitions: weights = dem + gop (margin) or turnout, turnout factor = results weights / baseline
+    weights, normalised margin = margin / weights, each 0 when its denominator is 0.
+    unit: dict(baseline_turnout/dem/gop, results_turnout/dem/gop, pev)"""
+    from elexmodel.handlers.data.CombinedData import CombinedDataHandler
+    from elexmodel.handlers.data.Estimandizer import Estimandizer
+
+    uid = "X_0001"
+    base_rows = [{"postal_code": "AA", "geographic_unit_fips": uid, "county_fips": "c0", "baseline_turnout": unit["baseline_turnout"], "baseline_dem": unit["baseline_dem"], "baseline_gop": unit["baseline_gop"]}]
+    feed_rows = [{"postal_code": "AA", "geographic_unit_fips": uid, "results_turnout": unit["results_turnout"], "results_dem": unit["results_dem"], "results_gop": unit["results_gop"], "percent_expected_vote": unit["pev"]}]
+    for i, pct in enumerate((100, 10)):
+        fid = f"F_{i}"
+        base_rows.append({"postal_code": "ZZ", "geographic_unit_fips": fid, "county_fips": "c1", "baseline_turnout": 1000, "baseline_dem": 500, "baseline_gop": 450})
+        feed_rows.append({"postal_code": "ZZ", "geographic_unit_fips": fid, "results_turnout": 1100 * pct // 100, "results_dem": 560 * pct // 100, "results_gop": 500 * pct // 100, "percent_expected_vote": pct})
+    base = pd.DataFrame(base_rows).astype({"baseline_turnout": float, "baseline_dem": float, "baseline_gop": float})
+    cur = pd.DataFrame(feed_rows).astype({"results_turnout": float, "results_dem": float, "results_gop": float})
+    out = {"exc": None, "failures": []}
+    try:
+        with warnings.catch_warnings():
+            warnings.simplefilter("ignore")
+            pre = Estimandizer().add_estimand_baselines(base, {e: e for e in estimands}, False)
+            if prepared:
+                cur, cols = Estimandizer().add_estimand_results(cur, list(estimands), False)
+                cur = cur[["postal_code", "geographic_unit_fips", "percent_expected_vote"] + cols].copy()
+            h = CombinedDataHandler(pre, cur, list(estimands), "county", handle_unreporting=policy)
+        row = h.data[h.data.geographic_unit_fips == uid].iloc[0]
+        d0 = lambda a, b: 0.0 if b == 0 else a / b  # noqa: E731
+        margin = "margin" in estimands
+        rw = unit["results_dem"] + unit["results_gop"] if margin else unit["results_turnout"]
+        bw = unit["baseline_dem"] + unit["baseline_gop"] if margin else unit["baseline_turnout"]
+        want = {"results_weights": rw, "baseline_weights": bw, "turnout_factor": d0(rw, bw)}
+        if margin:
+            want["results_margin"] = unit["results_dem"] - unit["results_gop"]
+            want["results_normalized_margin"] = d0(unit["results_dem"] - unit["results_gop"], rw)
+        for k, v in want.items():
+            got = float(row[k])
+            if not (abs(got - v) <= 1e-9 * max(1.0, abs(v))):
+                out["failures"].append({"column": k, "got": got, "definition": v})
+        out["ok"] = not out["failures"]
     except Exception as e:  # noqa
         out["exc"] = f"{type(e).__name__}: {e}"
         out["ok"] = False
